@@ -57,6 +57,7 @@ import (
 	"sigs.k8s.io/karpenter/pkg/controllers/state/informer"
 	"sigs.k8s.io/karpenter/pkg/state/cost"
 
+	"verif/gen"
 	"verif/mon"
 	"verif/props/reg"
 	"verif/world"
@@ -145,13 +146,15 @@ func (o outcome) String() string {
 
 // runner executes one history under one schedule.
 type runner struct {
-	r    *mon.Report
-	h    *history
-	e    *world.Env
-	t    *infs
-	rng  *rand.Rand
-	conc bool
-	ord  int
+	lateSeq  int
+	settling bool // the history is over: the drain phases only deliver, the world does not change any more
+	r        *mon.Report
+	h        *history
+	e        *world.Env
+	t        *infs
+	rng      *rand.Rand
+	conc     bool
+	ord      int
 
 	known      []dkey
 	knownSet   map[dkey]bool
@@ -290,7 +293,48 @@ func (x *runner) deliverOne(f *infs, k dkey) outcome {
 	}
 	var res reconcile.Result
 	var err error
+	// interleaving (sequential runs only): while the Node reconcile is between serving its pod list and finishing, the
+	// kubelet starts one more pod on that node and the pod informer delivers it (in a goroutine of its own, as the real
+	// pod worker would). The pod's latest version HAS been observed afterwards - it is not re-delivered in phase 1.
+	var join func()
+	if node, ok := x.get(k).(*corev1.Node); ok && k.Kind == "Node" && !x.conc && !x.settling && node.DeletionTimestamp == nil && x.rng.Intn(5) == 0 {
+		armed := true
+		done := make(chan struct{})
+		started := false
+		x.e.API.PostRead = []func(verb, kind, caller string){func(verb, kind, caller string) {
+			if !armed || verb != "list" || kind != "Pod" || !strings.Contains(caller, "controllers/state.") {
+				return
+			}
+			armed, started = false, true
+			x.lateSeq++
+			p := gen.Pod(fmt.Sprintf("late-%d", x.lateSeq), 100, 64, gen.Bound(node.Name, x.e.Clock.Now()))
+			x.e.Apply(p)
+			pk := dkey{"Pod", p.Namespace, p.Name}
+			if !x.knownSet[pk] {
+				x.knownSet[pk] = true
+				x.known = append(x.known, pk)
+			}
+			go func() {
+				defer close(done)
+				_, _, _ = mon.Guard(func() { _, _ = f.reconcile(x.e.Ctx, pk) })
+			}()
+			select { // give the pod worker a moment; it blocks on the cluster lock if the Node reconcile holds it
+			case <-done:
+			case <-time.After(20 * time.Millisecond):
+			}
+			x.r.Inc("pods_started_and_delivered_inside_a_node_reconcile")
+		}}
+		join = func() {
+			x.e.API.PostRead = nil
+			if started {
+				<-done
+			}
+		}
+	}
 	out.Panicked, out.PanicVal, out.Stack = mon.Guard(func() { res, err = f.reconcile(x.e.Ctx, k) })
+	if join != nil {
+		join()
+	}
 	out.Err = err
 	//nolint:staticcheck
 	out.Requeue = res.Requeue
@@ -1029,6 +1073,7 @@ func runOne(r *mon.Report, h *history, idx, ord int, conc bool, seed int64) (sta
 		r.Inc("ops_applied")
 	}
 	// phase 1: everything whose latest version has not been observed, and nothing else
+	x.settling = true
 	err1 := x.drain(x.pendingKeys())
 	x.reportPanics(idx)
 	ref := x.buildReference()
